@@ -107,10 +107,19 @@ def scenario(k, marks):
     if k == 24:
         # evaluated code names an entry that was evaluated EARLIER and holds an unsafe child
         return ['d: {v: ' + plain(0, '7') + ', w: 1}', 'x: ' + (m[1] and ('!eval:' + m[1][len('!metadata:'):]) or '!eval') + ' "rec(d)"'], [0, 1], 'ident'
+    if k == 25:
+        # the older container is forced and keeps winning; a later stage overrides the FUNCTION NAME with a forced entry
+        return ['w: !force {x: !call:%s {a: 1}}' % F, 'w: ' + plain(1, '{x: !force %s}' % G)], [('src', 0), 1], 'g'
+    if k == 26:
+        # ... or an ARGUMENT of the call
+        return ['w: !force {x: !call:%s {a: 1}}' % F, 'w: ' + plain(1, '{x: !force {a: 2}}')], [('src', 0), 1], 'f'
+    if k == 27:
+        # ... two levels down, the override being a whole forced mapping
+        return ['w: !force {m: {x: !call:%s {a: 1}}}' % F, 'w: ' + plain(1, '{m: !force {x: {b: 2}}}')], [('src', 0), 1], 'f'
     raise ValueError(k)
 
 
-NSCEN = 25
+NSCEN = 28
 
 
 def c07_history(split, s0, s1, s2, u, mark, low):
@@ -171,6 +180,9 @@ def c07_history(split, s0, s1, s2, u, mark, low):
         elif i == 'mark1':
             if u and mark == 1:
                 all_safe = False      # only the explicit marker of stage 1 taints, not its source flag
+        elif isinstance(i, tuple):
+            if not safes[i[1]]:
+                all_safe = False      # only the source flag of this stage matters: its text has no place for the marker
         else:
             if not safes[i]:
                 all_safe = False
@@ -193,7 +205,9 @@ def c07_history(split, s0, s1, s2, u, mark, low):
     return True
 
 
-def c07_lemma(split, sa, da, sb, db, which, ia=None, ib=None):
+def c07_lemma(split, sa, da, sb, db, which, io=None, ia=None):
+    ib = io          # the inherited flag of the node that is merged IN (it sits inside another container); the receiving node's own
+                     # inherited flag is re-derived by its parent after the merge and stays outside the step
     """inductive step over arbitrary flag states: merging can only spread unsafety.
     safe(result) => safe(a) and safe(b), for _replace_self / _replace_other on nodes with any (explicit, inherited, source) flags"""
     reset()
@@ -210,7 +224,8 @@ def c07_lemma(split, sa, da, sb, db, which, ia=None, ib=None):
     return (not r.ayns.safe) or (safe_a and safe_b)
 
 
-def c07_lemma_composed(split, sa, da, sb, db, which, promo, ia=None, ib=None):
+def c07_lemma_composed(split, sa, da, sb, db, which, promo, io=None):
+    ia, ib = (None, io) if which in (0, 1) else (io, None)      # io: inherited flag of the node that is merged in
     """the same step for containers incl. type promotion (a plain mapping replacing / replaced by a function node)"""
     reset()
     from awesomeyaml.nodes.dict import ConfigDict
@@ -246,10 +261,10 @@ HARNESSES = {
                            doc='merge histories of dynamic nodes; source safety of every stage and one !unsafe marker symbolic; one-sided taint oracle',
                            witnesses=('ran', 'refused')),
     'c07_lemma': Harness('c07_lemma', c07_lemma,
-                         [('sa', 'optbool'), ('da', 'bool'), ('sb', 'optbool'), ('db', 'bool'), ('which', 'bool')],
-                         lambda tier: [{}], doc='one merge step from an arbitrary flag state of two leaf nodes: safe(result) => safe(a) and safe(b)', witnesses=('stepped',)),
+                         [('sa', 'optbool'), ('da', 'bool'), ('sb', 'optbool'), ('db', 'bool'), ('which', 'bool'), ('io', 'optbool')],
+                         lambda tier: [{}], doc='one merge step from an arbitrary flag state of two leaf nodes (explicit and source flags of both, inherited flag of the node merged in): safe(result) => safe(a) and safe(b)', witnesses=('stepped',)),
     'c07_lemma_composed': Harness('c07_lemma_composed', c07_lemma_composed,
-                                  [('sa', 'optbool'), ('da', 'bool'), ('sb', 'optbool'), ('db', 'bool'), ('which', 'int', 0, 3), ('promo', 'bool')],
+                                  [('sa', 'optbool'), ('da', 'bool'), ('sb', 'optbool'), ('db', 'bool'), ('which', 'int', 0, 3), ('promo', 'bool'), ('io', 'optbool')],
                                   lambda tier: [{'_pre': 'which == %d' % w} for w in range(4)],
                                   doc='the same step for containers with type promotion (function node vs plain mapping)', witnesses=('stepped',)),
 }
